@@ -143,7 +143,7 @@ pub fn run(run: &mut Run) {
     };
     run_universes(run, &sel, DISAGREE, &check_pos);
     // MATERIAL carries its own clocks
-    let selm = Sel { material: Some(vec![0, 99, 100, 149, 150, 65535]), m4_corner: if thorough { None } else { Some(7) }, ..Default::default() };
+    let selm = Sel { material: Some(vec![0, 99, 100, 149, 150, 65535]), m4_corner: if thorough { None } else { Some(7) }, clocks: true, ..Default::default() };
     run_universes(run, &selm, DISAGREE, &check_pos_single);
     if thorough {
         let sel4 = Sel { m4: Some(crate::universe::M4_SHARDS), ..Default::default() };
